@@ -12,7 +12,7 @@ KEYS = ["csv", "df_str", "df_nat", "parquet"]
 
 
 def run(ctx):
-    n = 300 if ctx.tier == "quick" else 6000
+    n = 100 if ctx.tier == "quick" else 6000      # + directed tables: quick ~310 tables, thorough ~6500
     ctx.cov["rule"] = ("one case = one content table (structure 0-2 identifiers, 1-3 measures/attributes over the 8 scalar types, 0-5 rows, "
                        "at most one labelled focus cell, 0-3 structural violations) supplied as CSV, DataFrame of str, DataFrame with "
                        "native dtypes and Parquet; distinct = (component types/roles, focus family+value, violations, row count)")
@@ -21,7 +21,7 @@ def run(ctx):
     n_claim = n_exempt = 0
     for case, eng in zip(r["cases"], r["eng"]):
         f = case.get("focus")
-        if f and f["label"] in L.C18_EXEMPT and L.focus_cell(case) is not None:
+        if L.c18_exempt(f) and L.focus_cell(case) is not None:
             n_exempt += 1
             continue
         n_claim += 1
